@@ -227,7 +227,11 @@ theorem entry_is_pearson_of_scores {L : Type} (lab : List L) (ppf : ℝ → ℝ)
     `x ↦ ppf(clip(cdf_i(x)))` separates the values of that column (e.g. a strictly increasing fitted
     CDF that is not saturated by the clip, and a strictly increasing `ppf`).  PARTIAL: this
     separation is a property of the fitted marginal, an external object; it fails for degenerate
-    marginal fits (see `diag_one_raw_counterexample` and the recorded finding). -/
+    marginal fits (see `diag_one_raw_counterexample` and the recorded finding).
+    Superseded by `CopVerif.Props.C02b.diag_one_raw_iff` (exact: the diagonal is `1` iff two values
+    of the column get different scores), `C02b.diag_one_raw` (one separated pair and a `ppf`
+    strictly increasing on the clip range suffice) and `C02b.diag_one_raw_of_straddle`; this theorem
+    is the special case `C02b.diag_one_raw_of_separating`. -/
 theorem diag_one_raw_partial {L : Type} (lab : List L) (ppf : ℝ → ℝ) (cdfs : List (ℝ → ℝ))
     {X : List (List ℝ)} {n : ℕ} (hX : Rect X n) (hF : cdfs.length = X.length) (c : ℝ) {i : ℕ}
     (hi : i < X.length)
